@@ -14,7 +14,7 @@ NEGZERO_SIG = "C04:negative-zero-float-field-lost"
 
 def run(ctx):
     quick = ctx.quick()
-    cres, thm, ref, ref_err, bins, berr, units = common_setup(ctx, PROPS, 3 if quick else 40)
+    cres, thm, ref, ref_err, bins, berr, units = common_setup(ctx, PROPS, 3 if quick else 40, [wide_spec(ctx)])
     nrand = 5 if quick else 40
     ntl1 = 10 if quick else 80
     stats = {"schemas": 0, "types": 0, "conv_ops": 0, "json_ops": 0, "tl1_values": 0, "go_random_values": 0, "kernel_rejected": 0,
@@ -128,7 +128,7 @@ def run(ctx):
         "trusted_base": trusted_base(thm),
         "theorems": thm["statements"], "assumptions_per_theorem": thm["assumptions"],
         "evaluations": stats["conv_ops"] + stats["json_ops"], "distinct_nontrivial": stats["tl1_values"] + stats["go_random_values"],
-        "rule": "per schema (cases.tl, goldmaster*.tl, random schemas, generated with --tl2WhiteList=*) and top-level type: TL1 bytes of "
+        "rule": "Boundary-size values are always included (<= ~30 per run): strings of length 253/254/65535/65536/65789/65790/65791 (+1 random in the windows), vectors whose body size lands on those edges, and enclosing struct bodies of exactly those sizes (top level and nested), i.e. every edge of the 1/3/9-byte size forms; per schema (cases.tl, goldmaster*.tl, random schemas, generated with --tl2WhiteList=*) and top-level type: TL1 bytes of "
                 "type-directed wire values (written by the TL1 model) and of FillRandom values (written by Go) go through generated "
                 "ReadTL1 -> WriteTL2 -> ReadTL2 (fresh object) -> WriteTL1General and through the model (dec1, enc2, dec2, enc1): "
                 "consumed length, TL2 bytes and final TL1 bytes compared; model-free oracle: final TL1 bytes == original and the JSON "
